@@ -23,9 +23,8 @@ func checkC17(r *Run) {
 	scopeDisciplineRuleSSA(r, "R6")
 	exactlyOnceRule(r, "R1")
 	contentRulesSSA(r, "R1", "R2", "R3", "")
-	helperScopeRule(r, "R3")
-	dataParamRule(r, "R3")
-	partialOrderRule(r, "R4")
+	contentRulesSSA(r, "", "", "", "R3")
+	partialResultTypeRule(r, "R4")
 	blockHandOverRule(r, "R5")
 }
 
@@ -67,7 +66,7 @@ func onlyCount(m map[int]bool, want int) bool {
 }
 
 func exactlyOnceRule(r *Run, rule string) {
-	w := r.W
+	_ = r.W
 	succ := func(info *types.Info) func(*ast.ReturnStmt) bool {
 		return func(ret *ast.ReturnStmt) bool {
 			if len(ret.Results) != 2 {
@@ -95,74 +94,9 @@ func exactlyOnceRule(r *Run, rule string) {
 			return true
 		}
 	}
-	// PartialHelper
-	if f := w.Func("", "PartialHelper"); f != nil {
-		info := f.Pkg.TypesInfo
-		isRender := func(c *ast.CallExpr) bool {
-			cal := calleeOf(info, c)
-			return cal != nil && cal.Name() == "Render" && isRenderingFunc(cal)
-		}
-		isFeeder := func(c *ast.CallExpr) bool {
-			if calleeOf(info, c) != nil {
-				return false
-			}
-			tv, ok := info.Types[c.Fun]
-			if !ok {
-				return false
-			}
-			sig, ok := tv.Type.Underlying().(*types.Signature)
-			return ok && sig.Params().Len() == 1 && sig.Results().Len() == 2 && builtinName(info, c) == ""
-		}
-		// the layout recursion is a tail call: count on non-recursive success returns, and require the recursive return to have rendered once too
-		all := func(ret *ast.ReturnStmt) bool {
-			if len(ret.Results) == 1 {
-				if c, ok := unparen(ret.Results[0]).(*ast.CallExpr); ok && calleeOf(info, c) == f.Obj {
-					return true
-				}
-			}
-			return succ(info)(ret)
-		}
-		rc := countOnPaths(info, f.Decl.Body, isRender, all)
-		fc := countOnPaths(info, f.Decl.Body, isFeeder, all)
-		if onlyCount(rc, 1) && onlyCount(fc, 1) {
-			r.Ok(rule, f.Name(), "feeder once, Render once per level", w.Pos(f.Decl.Pos()), "on every path to a success return or to the layout tail call")
-		} else {
-			r.Bad(rule, f.Name(), fmt.Sprintf("feeder calls %v, Render calls %v per success path", keys(fc), keys(rc)), w.Pos(f.Decl.Pos()), "the partial's text must be fetched once and rendered exactly once per layout level")
-		}
-		// at most one recursive call, as the whole return value
-		nRec := 0
-		for _, c := range callsIn(f.Decl.Body, false) {
-			if calleeOf(info, c) == f.Obj {
-				nRec++
-				if ret, ok := w.Parent(c).(*ast.ReturnStmt); !ok || len(ret.Results) != 1 {
-					r.Bad(rule, f.Name(), "layout recursion is not a tail call", w.Pos(c.Pos()), "the layout must wrap the finished partial: its result is the result")
-				}
-			}
-		}
-		if nRec != 1 {
-			r.Bad(rule, f.Name(), fmt.Sprintf("%d layout recursions", nRec), w.Pos(f.Decl.Pos()), "exactly one layout step expected")
-		}
-	} else {
-		r.Lost(rule, "PartialHelper")
-	}
-	// BlockWith
-	if ht := w.NamedType("", "HelperContext"); ht != nil {
-		blockEval := w.evalMethod("BlockStatement")
-		sink := w.sinkMethod()
-		for _, f := range w.Funcs("") {
-			if !isMethodOf(f, ht) || f.Decl.Name.Name != "BlockWith" {
-				continue
-			}
-			info := f.Pkg.TypesInfo
-			ec := countOnPaths(info, f.Decl.Body, func(c *ast.CallExpr) bool { return blockEval != nil && calleeOf(info, c) == blockEval.Obj }, succ(info))
-			sc := countOnPaths(info, f.Decl.Body, func(c *ast.CallExpr) bool { return sink != nil && calleeOf(info, c) == sink.Obj }, succ(info))
-			if onlyCount(ec, 1) && onlyCount(sc, 1) {
-				r.Ok(rule, f.Name(), "block evaluated once, written once", w.Pos(f.Decl.Pos()), "on every success path")
-			} else {
-				r.Bad(rule, f.Name(), fmt.Sprintf("block evaluations %v, sink calls %v per success path", keys(ec), keys(sc)), w.Pos(f.Decl.Pos()), "a helper's block must be rendered exactly once per BlockWith call")
-			}
-		}
-	}
+	_ = succ
+	partialRulesSSA(r, "R3", rule, "R3", "R4")
+	blockWithOnceRuleSSA(r, rule)
 }
 
 func keys(m map[int]bool) []int {
@@ -284,78 +218,12 @@ func dataParamRule(r *Run, rule string) {
 	}
 }
 
-func partialOrderRule(r *Run, rule string) {
+func partialResultTypeRule(r *Run, rule string) {
 	w := r.W
 	f := w.Func("", "PartialHelper")
 	if f == nil {
 		r.Lost(rule, "PartialHelper")
 		return
-	}
-	info := f.Pkg.TypesInfo
-	var renderPos, jsPos, layoutPos token.Pos
-	var partVar types.Object
-	for _, st := range f.Decl.Body.List {
-		for _, c := range callsIn(st, false) {
-			cal := calleeOf(info, c)
-			switch {
-			case cal != nil && cal.Name() == "Render" && isRenderingFunc(cal):
-				renderPos = st.Pos()
-				if ifs, ok := st.(*ast.IfStmt); ok {
-					if as, ok := ifs.Init.(*ast.AssignStmt); ok {
-						partVar = objOf(info, as.Lhs[0])
-					}
-				}
-				if as, ok := st.(*ast.AssignStmt); ok {
-					partVar = objOf(info, as.Lhs[0])
-				}
-			case funcIs(cal, htmlTplPath, "JSEscapeString"):
-				jsPos = st.Pos()
-			case cal == f.Obj:
-				layoutPos = st.Pos()
-			}
-		}
-	}
-	if renderPos.IsValid() && jsPos.IsValid() && layoutPos.IsValid() && renderPos < jsPos && jsPos < layoutPos {
-		r.Ok(rule, f.Name(), "render < JS escape < layout", w.Pos(f.Decl.Pos()), "the part is escaped for its own content type before it is handed to the layout")
-	} else {
-		r.Bad(rule, f.Name(), "order of render, JS escape and layout", w.Pos(f.Decl.Pos()),
-			"the content-type-conditional JS escape must be applied to the partial's own text before the layout step returns; otherwise a partial rendered with a layout is never escaped (or is escaped by the layout's name)")
-	}
-	// yield: template.HTML(part); final result: template.HTML(part)
-	nConv := 0
-	okAll := true
-	ast.Inspect(f.Decl.Body, func(n ast.Node) bool {
-		c, ok := n.(*ast.CallExpr)
-		if !ok {
-			return true
-		}
-		if t, isConv := isConversion(info, c); isConv && namedIs(t, htmlTplPath, "HTML") {
-			nConv++
-			if objOf(info, c.Args[0]) != partVar || partVar == nil {
-				okAll = false
-			}
-		}
-		return true
-	})
-	okYield := false
-	ast.Inspect(f.Decl.Body, func(n ast.Node) bool {
-		kv, ok := n.(*ast.KeyValueExpr)
-		if !ok {
-			return true
-		}
-		if s, ok := constString(info, kv.Key); ok && s == "yield" {
-			if c, ok := unparen(kv.Value).(*ast.CallExpr); ok {
-				if t, isConv := isConversion(info, c); isConv && namedIs(t, htmlTplPath, "HTML") && objOf(info, c.Args[0]) == partVar {
-					okYield = true
-				}
-			}
-		}
-		return true
-	})
-	if okAll && nConv == 2 && okYield {
-		r.Ok(rule, f.Name(), "result and yield are template.HTML(part)", w.Pos(f.Decl.Pos()), "rendered text, not escaped again")
-	} else {
-		r.Bad(rule, f.Name(), "result / yield conversion", w.Pos(f.Decl.Pos()), "the partial's result and the layout's yield must be the rendered text typed template.HTML")
 	}
 	// result type
 	sig := f.Obj.Type().(*types.Signature)
